@@ -19,6 +19,8 @@
 //	lingerafter<k> like ok, but shortly after having answered its k-th lifecycle event it
 //	           closes its connection (stub.Stop), appends a "ConnClosed" line to the event
 //	           log so that the harness knows, and keeps running
+//	closeat<k> like ok, but inside the handler of its k-th lifecycle event it closes its
+//	           connection (stub.Stop) instead of answering, and keeps running
 //	hang<k>    like ok, but never returns from the handler of its k-th lifecycle event
 //
 // Every handler invocation appends one JSON line to the shared O_APPEND log
@@ -256,6 +258,9 @@ func (p *plugin) lifecycle(ev, tag string) {
 		case "die":
 			os.Exit(3)
 		case "hang":
+			linger()
+		case "closeat":
+			go theStub.Stop() // closes the only copy of the pre-connected socket; no answer is sent
 			linger()
 		case "dieafter":
 			go func() {
